@@ -26,6 +26,7 @@ package vals
 //@ spec fn partsok(s string) bool = (len(lowpart(s)) == 0 || atoi_ok(lowpart(s))) && (len(highpart(s)) == 0 || atoi_ok(highpart(s)))
 
 //@ func adjustAndCheckIndex
+//@   nowrite
 //@   props C13
 //@   results r err
 //@   pure
@@ -35,6 +36,7 @@ package vals
 //@   ensures err != nil ==> r == 0
 
 //@ func splitIndexString
+//@   nowrite
 //@   props C13
 //@   pure
 //@   ensures !isslice(s) ==> len(sep) == 0 && low === s && len(high) == 0
@@ -42,6 +44,7 @@ package vals
 //@   ensures isslice(s) ==> (inclusive(s) ? sep == "..=" : sep == "..")
 
 //@ func atoi
+//@   nowrite
 //@   props C13
 //@   results r err
 //@   pure
@@ -49,6 +52,7 @@ package vals
 //@   ensures err != nil ==> r == 0 && !atoi_ok(a)
 
 //@ func parseIndexString
+//@   nowrite
 //@   props C13
 //@   pure
 //@   requires 0 <= n && n < MaxInt - 1
@@ -61,6 +65,7 @@ package vals
 //@   ensures isslice(s) && err == nil && highraw(s, n) == MaxInt && inclusive(s) ==> j == MinInt
 
 //@ func ConvertListIndex
+//@   nowrite
 //@   props C13
 //@   results idx err
 //@   requires 0 <= n && n < MaxInt - 1
@@ -201,6 +206,7 @@ package vals
 //@   ensures result == (len(s) == 0 || !invalidbefore(s, len(s)))
 
 //@ func convertStringIndex
+//@   nowrite
 //@   props C13
 //@   results i j err
 //@   ensures err == nil ==> 0 <= i && i <= j && j <= len(s)
@@ -213,13 +219,15 @@ package vals
 //@   ensures err == nil && istype(rawIndex, string) && isslice(rawIndex.(string)) ==> (i == len(s) || !invalidat(s, i)) && (j == 0 || !invalidbefore(s, j))
 
 //@ func indexString
+//@   nowrite
 //@   props C13
 //@   results r err
 //@   ensures err == nil && istype(index, int) ==> r === s[adj(index.(int), len(s)) : adj(index.(int), len(s)) + sizeat(s, adj(index.(int), len(s)))]
 //@   ensures err == nil && istype(index, string) && isslice(index.(string)) ==> r === s[adj(lowval(index.(string)), len(s)) : adj(highval(index.(string), len(s)), len(s))]
 
 //@ func assocString
-//@   props C13
+//@   props C13 C14
+//@   nowrite
 //@   results r err
 //@   ensures err == nil ==> istype(v, string) && istype(r, string)
 //@   ensures err == nil && istype(k, int) ==> len(r.(string)) == len(s) - sizeat(s, adj(k.(int), len(s))) + len(v.(string))
@@ -228,6 +236,7 @@ package vals
 //@   ensures err == nil && istype(k, int) ==> (forall p int :: adj(k.(int), len(s)) + sizeat(s, adj(k.(int), len(s))) <= p && p < len(s) ==> r.(string)[p - sizeat(s, adj(k.(int), len(s))) + len(v.(string))] == s[p])
 
 //@ func indexList
+//@   nowrite
 //@   props C13
 //@   results r err
 //@   requires l != nil
@@ -238,7 +247,8 @@ package vals
 //@   ensures err == nil && istype(rawIndex, string) && isslice(rawIndex.(string)) ==> (forall p int :: 0 <= p && p < vec_len(r.(vector.Vector)) ==> vec_at(r.(vector.Vector), p) === vec_at(l, adj(lowval(rawIndex.(string)), vec_len(l)) + p))
 
 //@ func assocList
-//@   props C13
+//@   props C13 C14
+//@   nowrite
 //@   results r err
 //@   requires l != nil
 //@   ensures istype(k, int) ==> (err == nil) == (-vec_len(l) <= k.(int) && k.(int) < vec_len(l))
@@ -319,3 +329,62 @@ package vals
 //@   exit [plain-first-scientific-second] callarg1(0).(byte) == 'f' && (ncalls == 2 ==> callarg1(1).(byte) == 'e' && result === callres(1).(string))
 //@   exit [plain-form-kept-or-given-a-point] ncalls == 1 ==> (len(result) == len(callres(0).(string)) || len(result) == len(callres(0).(string)) + 2) && (forall k int :: 0 <= k && k < len(callres(0).(string)) ==> result[k] == callres(0).(string)[k])
 //@   exit [point-appended-only-to-finite-numbers] ncalls == 1 && len(result) == len(callres(0).(string)) + 2 ==> result[len(result) - 2] == '.' && result[len(result) - 1] == '0' && !isnan(f) && !isinf(f)
+
+// ---------------------------------------------------------------------------
+// C14: the container operations element assignment is built from never write to
+// an object that existed before the call (`nowrite`) - they return new values
+// that share structure with the old ones. User-defined Assocer / Dissocer
+// implementations and the reflective struct-map helpers are assumed to behave
+// the same way (listed as assumptions).
+//@ func Assocer.Assoc
+//@   trusted
+//@   pure
+//@ func Dissocer.Dissoc
+//@   trusted
+//@   pure
+//@ func promoteFieldMapToMap
+//@   trusted
+//@   pure
+
+//@ func Assoc
+//@   props C14
+//@   pure
+//@   nosafety
+//@   nowrite
+//@   skip pre:assocList
+
+//@ func Dissoc
+//@   props C14
+//@   pure
+//@   nosafety
+//@   nowrite
+
+// Index dispatches to the container's own indexing; user-defined Indexer
+// implementations, files and the reflective struct-map helpers only read (assumed).
+//@ func Indexer.Index
+//@   trusted
+//@   pure
+//@ func ErrIndexer.Index
+//@   trusted
+//@   pure
+//@ func indexFile
+//@   trusted
+//@   pure
+//@ func indexMethodMap
+//@   trusted
+//@   pure
+//@ func indexFieldMap
+//@   trusted
+//@   pure
+//@ func PseudoMap.Fields
+//@   trusted
+//@   pure
+//@ func NoSuchKey
+//@   trusted
+//@   pure
+//@ func Index
+//@   props C14
+//@   pure
+//@   nosafety
+//@   nowrite
+//@   skip pre:indexList
